@@ -235,7 +235,8 @@ PROPS["C14"] = dict(
     pkg="c14", level="exploration",
     technique="prefix-relation property testing: accepted texts S x separators x directive-like tails; Len must equal len(S), the prefix must pass Check with the same AST; lexically incomplete S + tail must make Len fail",
     level_text=("Bounded exploration over generated accepted schemas (several styles, incl. ones ending in annotations and type shortcuts), JSON documents (trailing characters allowed) and enum rule texts, "
-                "each followed by a separator (none after a closing bracket or quote, blanks, LF/CRLF runs) and a foreign tail; plus the negative half (S cut inside its top-level container). Sampled."),
+                "each followed by a separator (none after a closing bracket or quote, blanks, LF/CRLF runs) and a foreign tail; plus the negative half (S cut inside its top-level container; top-level scalars cut at every offset, at the end of the input or before a tail: a reported length must end a complete value by the independent JSON "
+                "recogniser); JSON documents are also measured after NextLexeme has walked them. Sampled."),
     level_note="trusted: the generators produce accepted S (schemas are checked first); scalars directly followed by a non-extending byte are outside the stated domain (only no-panic is asserted there)",
     rule=("cases (kind, S, separator, tail); non-trivial = tail non-empty (or a cut S); distinct by the tuple"),
     assumptions=["tails never start with / or # (which continue a schema) nor with | after a type shortcut"],
